@@ -246,6 +246,7 @@ class CSSMediaRule(cssrule.CSSRuleRules):
                 ok = ok and wellformed
 
             if ok:
+                self.atkeyword = self._tokenvalue(attoken)
                 self.name = name
                 self._setSeq(nameseq)
             else:
